@@ -553,7 +553,7 @@ func (fr *frame) checkGuards(st *PState, qname string, sig *types.Signature, arg
 				vars["res_"+name+"_0"] = res
 			}
 		}
-		env := &SpecEnv{ex: fr.ex, vars: vars, cur: st, old: tc.entry, pkg: tc.contract.Pkg, bound: map[string]T{}}
+		env := (&SpecEnv{ex: fr.ex, vars: vars, cur: st, old: tc.entry, pkg: tc.contract.Pkg, bound: map[string]T{}}).Goal()
 		t, err := env.TrBool(g.Expr.Expr)
 		if err != nil {
 			bail("guard %s: %v", g.Label, err)
